@@ -385,6 +385,10 @@ impl VersionManager {
         inner
             .rowset_deletion_to_apply
             .retain(|k, _| !can_apply(*k, vacuum_epoch));
+        #[cfg(risinglight_verif)]
+        if !inner.rowset_deletion_to_apply.is_empty() {
+            crate::verif::probe("vacuum.deferred-by-pinned-version");
+        }
         for deletion in &deletions {
             if let Some(rowset) = inner.rowsets.remove(deletion) {
                 match Arc::try_unwrap(rowset) {
